@@ -590,6 +590,7 @@ func c01(c *ctx) error {
 		}
 		c.w.Count(fmt.Sprintf("leaf=%d", leaf))
 		nobj := 1 + r.Intn(2)
+		dirty := false
 		for o := 0; o < nobj; o++ {
 			ln := cafsLen(r, leaf)
 			if leaf >= 65536 && ln > 2*leaf+7 {
@@ -606,6 +607,15 @@ func c01(c *ctx) error {
 			}
 			if !ok {
 				continue
+			}
+			// once the store has a history (damage, deletions) the keys cache of the long-lived instance
+			// may serve an object whose root blob is gone or damaged — correct bytes, but not what the
+			// cache-free model predicts: reads go through a fresh instance from then on
+			rd := fs
+			if dirty {
+				if fresh, _, e := cafsNewFs(st, leaf, r); e == nil {
+					rd = fresh
+				}
 			}
 			// sequential reads, various buffer sizes
 			for k := 0; k < 2; k++ {
@@ -627,7 +637,7 @@ func c01(c *ctx) error {
 						bufs[0] = leaf
 					}
 				}
-				res, calls := cafsReadAll(fs, ob.key, bufs)
+				res, calls := cafsReadAll(rd, ob.key, bufs)
 				c.w.Op(fmt.Sprintf("read obj=%d style=readall bufs=%s", o, cafsJoin(bufs)), res+" ## calls="+calls)
 				// the same buffers through the Read state machine, call by call, for a chosen blob-reader behaviour
 				mode, sres := cafsReadSeq(st, leaf, ob.key, r, bufs)
@@ -652,15 +662,16 @@ func c01(c *ctx) error {
 				if off < 0 {
 					off = 0
 				}
-				c.w.Op(fmt.Sprintf("read obj=%d style=readat off=%d n=%d", o, off, cnt), cafsReadAt(fs, ob.key, off, cnt))
+				c.w.Op(fmt.Sprintf("read obj=%d style=readat off=%d n=%d", o, off, cnt), cafsReadAt(rd, ob.key, off, cnt))
 				c.w.Count("readat")
 			}
-			c.w.Op(fmt.Sprintf("read obj=%d style=writeto-at", o), cafsWriteTo(fs, ob.key, true))
-			c.w.Op(fmt.Sprintf("read obj=%d style=writeto-stream", o), cafsWriteTo(fs, ob.key, false))
+			c.w.Op(fmt.Sprintf("read obj=%d style=writeto-at", o), cafsWriteTo(rd, ob.key, true))
+			c.w.Op(fmt.Sprintf("read obj=%d style=writeto-stream", o), cafsWriteTo(rd, ob.key, false))
 			// store history, then the same content stored again through the same long-lived instance:
 			// it reads back exactly from a fresh instance (and the model says when it cannot)
 			if r.Intn(3) == 0 {
 				cafsHistory(c, r, st, fs, ob, o)
+				dirty = true
 				plan2, single2 := cafsChunkPlan(r, ln, leaf)
 				ob2, ok2 := cafsPut(c, fs, o+10, seed, ln, plan2, single2)
 				c.w.Count("reput-after-history")
